@@ -15,15 +15,47 @@ def _strip(iv):
     return tuple(iv[1:])
 
 
+def _layout(spec):
+    """stream layout of a FIFO crossing.  spec["dw"] is the width of the whole token the contract sees; with
+    spec["pw"] / spec["fl"] its upper bits travel as param field / first and last flags (the FIFO wrapper packs
+    payload, param, first and last into one word: a mix-up of those fields must show as a changed token)"""
+    pw, fl = spec.get("pw", 0), spec.get("fl", 0)
+    dw = spec.get("dw", 1) - pw - 2 * fl
+    assert dw >= 1
+    if pw:
+        return stream.EndpointDescription([("data", dw)], [("p", pw)])
+    return [("data", dw)]
+
+
+def _tok_io(top, f, spec):
+    """-> (token input signal, token output expression) of the crossing f"""
+    from migen import Cat
+    pw, fl = spec.get("pw", 0), spec.get("fl", 0)
+    if not pw and not fl:
+        return f.sink.data, f.source.data
+    dw = spec.get("dw", 1) - pw - 2 * fl
+    din = Signal(dw + pw + 2 * fl, name="tok_in")
+    top.comb += f.sink.data.eq(din[:dw])
+    out = [f.source.data]
+    if pw:
+        top.comb += f.sink.p.eq(din[dw:dw + pw])
+        out.append(f.source.p)
+    if fl:
+        top.comb += [f.sink.first.eq(din[dw + pw]), f.sink.last.eq(din[dw + pw + 1])]
+        out += [f.source.first, f.source.last]
+    return din, Cat(*out)
+
+
 def make(spec):
     kind = spec["kind"]
     top = Module()
     opts = {"clocks": ("write", "read"), "meta": True, "cds_from_input": _cds, "strip_input": _strip}
     if kind == "asyncfifo":
-        f = stream.AsyncFIFO([("data", spec.get("dw", 1))], spec.get("depth", 4), buffered=spec.get("buffered", False))
+        f = stream.AsyncFIFO(_layout(spec), spec.get("depth", 4), buffered=spec.get("buffered", False))
         top.submodules.f = f
-        ins = [f.sink.valid, f.sink.data, f.source.ready]
-        outs = [f.sink.ready, f.source.valid, f.source.data]
+        ti, to = _tok_io(top, f, spec)
+        ins = [f.sink.valid, ti, f.source.ready]
+        outs = [f.sink.ready, f.source.valid, to]
     elif kind == "cdc" and spec.get("common_rst"):
         # the user domains need reset signals of their own: ResetSignal("write") / ResetSignal("read") are the
         # two environment inputs.  The crossing clocks its FIFO from two private domains "from<duid>"/"to<duid>"
@@ -58,11 +90,12 @@ def make(spec):
         ins = [f.sink.valid, f.sink.data, f.source.ready]
         outs = [f.sink.ready, f.source.valid, f.source.data]
     elif kind == "cdc":
-        f = stream.ClockDomainCrossing([("data", spec.get("dw", 1))], cd_from="write", cd_to="read",
+        f = stream.ClockDomainCrossing(_layout(spec), cd_from="write", cd_to="read",
                                        depth=spec.get("depth", 4), buffered=spec.get("buffered", False))
         top.submodules.f = f
-        ins = [f.sink.valid, f.sink.data, f.source.ready]
-        outs = [f.sink.ready, f.source.valid, f.source.data]
+        ti, to = _tok_io(top, f, spec)
+        ins = [f.sink.valid, ti, f.source.ready]
+        outs = [f.sink.ready, f.source.valid, to]
     elif kind == "bus":
         b = BusSynchronizer(spec["width"], "write", "read", timeout=spec["timeout"])
         top.submodules.b = b
